@@ -805,4 +805,68 @@ example : (traceP exEnvP { batchSize := 2 } exEvsP 5).store.stored 2 = true ∧
     (traceP exEnvP { batchSize := 2 } exEvsP 6).head = some 8 ∧
     (traceP exEnvP { batchSize := 2 } exEvsP 6).store.stored 7 = false := by decide
 
+/-! ### the premise "trusted peers report a FRESH head" is necessary
+
+  `store_stays_on_honest_chain_with_pruning_partial` admits the pruner's safe removals but requires
+  the network head handed over by trusted peers to be inside the sampling window (`HeadFresh`, part
+  of `EvOkP`).  Without it the conclusion is false — of the model and (replay
+  `evidence/replays/C38-a48cf8a3a32c.ops`, found by the thorough tier) of lumina: a head older than
+  both windows is the only stored header, C35's condition lets the pruner remove it, the store is
+  empty, and the batch above the pruned height has no stored neighbour: `check_insertion_constraints`
+  returns `(false, false)` and the store inserts whatever validated, internally linked headers an
+  untrusted peer sent.  The correspondence therefore refuses a network head outside the sampling
+  window (`stale-head`): the event is outside the premises of C38. -/
+
+/-- admissibility WITHOUT the freshness premise: the syncer's events as in `EvOk`, removals safe -/
+def EvOkNoFresh (v : Hdr → Hdr → Bool) (c : Nat → Hdr) (e : Env) (s : State) : EvP → Prop
+  | .ev x => EvOk v c s x
+  | .prune h => PruneSafe e s.store h
+
+/-- heights ≤ 5 are outside the sampling and the pruning window -/
+def exEnvStale : Env :=
+  { verify := exVerify, chain := { oldS := fun h => decide (h ≤ 5), oldP := fun h => decide (h ≤ 5) }, slowMin := 50 }
+
+/-- trusted peers report the 5-old head 5; the pruner removes it; header-sub announces 6; an
+    untrusted peer answers the request for 6 with a foreign header -/
+def exStaleRun : List EvP :=
+  [.ev (.peers 1), .ev (.netHead (exChain 5)), .prune 5, .ev (.headerSub (exChain 6)),
+   .ev (.batch (some [exFork 6]))]
+
+/-- **Without the freshness premise the store leaves the honest chain**: every event of
+    `exStaleRun` is admissible but for `HeadFresh` (honest heads, a batch the p2p layer accepts, a
+    removal satisfying C35's condition; the regime hypotheses pruning window ≥ sampling window and
+    monotone header age hold), and the final store holds a header that is not the honest chain's. -/
+theorem stale_network_head_counterexample :
+    (∀ h, exEnvStale.chain.oldP h = true → exEnvStale.chain.oldS h = true) ∧
+    (∀ h1 h2, h1 ≤ h2 → exEnvStale.chain.oldS h2 = true → exEnvStale.chain.oldS h1 = true) ∧
+    (∀ k, k < exStaleRun.length →
+      EvOkNoFresh exVerify exChain exEnvStale (runP exEnvStale { batchSize := 1 } (exStaleRun.take k))
+        (exStaleRun.getD k (.prune 0))) ∧
+    ¬ AllOnChain exChain (runP exEnvStale { batchSize := 1 } exStaleRun).store := by
+  refine ⟨fun h hp => hp, ?_, ?_, ?_⟩
+  · intro h1 h2 hle h
+    simp only [exEnvStale, decide_eq_true_eq] at h ⊢
+    omega
+  · intro k hk
+    have hk' : k = 0 ∨ k = 1 ∨ k = 2 ∨ k = 3 ∨ k = 4 := by
+      simp only [exStaleRun, List.length_cons, List.length_nil] at hk; omega
+    rcases hk' with rfl | rfl | rfl | rfl | rfl
+    · trivial
+    · exact ⟨⟨rfl, rfl⟩, by unfold HdrWf; decide⟩
+    · show PruneSafe exEnvStale _ 5
+      exact ⟨by decide, by decide, Or.inl (by decide)⟩
+    · exact ⟨⟨rfl, rfl⟩, by unfold HdrWf; decide⟩
+    · refine ⟨fun r hr => ?_, fun x hx => ?_⟩
+      · have hon : (runP exEnvStale { batchSize := 1 } (exStaleRun.take 4)).ongoing = some (6, 6) := by decide
+        rw [hon] at hr
+        injection hr with hr
+        subst hr
+        decide
+      · simp at hx; subst hx; unfold HdrWf; decide
+  · intro hall
+    have hmem : exFork 6 ∈ (runP exEnvStale { batchSize := 1 } exStaleRun).store.hdrs := by decide
+    have := (hall _ hmem).2
+    revert this
+    decide
+
 end Lumina.Props.C38
